@@ -8,6 +8,7 @@
 Imported after harness.build.use(mode) so that `xdeps` is the scratch copy of /repo's working tree.
 """
 import math, operator
+import numpy as _np
 
 import xdeps
 import xdeps.refs as xr
@@ -96,8 +97,12 @@ def universe(name, keys="plain"):
     K = {
         "plain":   {"a": "a", "b": "b", "c": "c", "d": "d", "n": "n", "x": "x", "y": "y", "z": "z", "i": "i"},
         "hostile": {"a": "s['b']", "b": "a']['b", "c": ("t", 1), "d": 1.5, "n": "n.x", "x": "é\"q", "y": -7, "z": "s", "i": "i j"},
+        # keys as numpy hands them out (for i in np.arange(n): s['l'][i] = ...; names read from a numpy string array)
+        "numpy":   {"a": _np.str_("a"), "b": _np.str_("b"), "c": _np.int64(3), "d": _np.str_("d"), "n": _np.str_("n"), "x": _np.str_("x"), "y": _np.int64(7),
+                    "z": _np.str_("z"), "i": _np.str_("i")},
     }[keys]
-    if name == "U1":     # flat a, b + nested dict n{x,y}
+    LI = (lambda i: _np.int64(i)) if keys == "numpy" else (lambda i: i)
+    if name in ("U1", "U4"):     # flat a, b + nested dict n{x,y}  (U4: same locations, small menu, explored deeper)
         loc = {"a": _mk("s", ("item", K["a"])), "b": _mk("s", ("item", K["b"])),
                "n": _mk("s", ("item", K["n"])),
                "n.x": _mk("s", ("item", K["n"]), ("item", K["x"])),
@@ -109,7 +114,7 @@ def universe(name, keys="plain"):
                "e": _mk("s", ("item", "e")),
                "e.p": _mk("s", ("item", "e"), ("attr", "p")), "e.q": _mk("s", ("item", "e"), ("attr", "q")),
                "l": _mk("s", ("item", "l")),
-               "l.0": _mk("s", ("item", "l"), ("item", 0)), "l.1": _mk("s", ("item", "l"), ("item", 1)),
+               "l.0": _mk("s", ("item", "l"), ("item", LI(0))), "l.1": _mk("s", ("item", "l"), ("item", LI(1))),
                "f:total": _mk("f", ("attr", "total"))}
         leaves = ["a", "i", "e.p", "e.q", "l.0", "l.1"]
     elif name == "U3":   # flat a, b, c, d (diamonds, chains, function task, knob)
@@ -179,7 +184,7 @@ class World:
             kinds = {k for k, _ in childkinds}
             if kinds == {"attr"}:
                 c = self._new("obj", l)
-            elif all(isinstance(key, int) and key >= 0 for _, key in childkinds):
+            elif all(isinstance(key, (int, _np.integer)) and key >= 0 for _, key in childkinds):
                 c = self._new("list", l)
                 list.extend(c, [None] * (1 + max(key for _, key in childkinds)))
             else:
@@ -544,6 +549,11 @@ def transfer(w, lab):
         w2 = World(w.uni, w.read_mem(), w.taskspec)
         _assign(w2, lab["keeploc"], w2.build_expr(lab["keepexpr"]))
         w2.m.copy_expr_from(w.m, w.uni["label"], overwrite=False)
+    elif kind == "copy_bind_keep":
+        u2 = rebase(w.uni)
+        w2 = World(u2, w.read_mem(), w.taskspec)
+        _assign(w2, lab["keeploc"], w2.build_expr(lab["keepexpr"]))
+        w2.m.copy_expr_from(w.m, w.uni["label"], bindings={w.sref: w2.sref["sub"]}, overwrite=False)
     else:
         raise KeyError(kind)
     w2.shadows = list(w.shadows)
